@@ -136,3 +136,55 @@ def history(rng):
             steps.append(("snip", PROBE))
     steps.append(("snip", PROBE))
     return steps, MODS
+
+
+KEEP_SOURCES = [
+    "var counter = 0;\nfn bump() { counter = counter + 1; return counter; }\nprint([bump(), bump()]);\n",
+    "fn outer(n) { fn inner(k) { return [k, n]; } return inner; }\nvar made = outer(3);\nprint(made(4));\nprint([1, 2, 3].iter().map(|v| made(v)).collect());\n",
+    "#[constructor(new)] class Kept { fn tag(self) { return \"kept\"; } #[static] fn make() { return Self.new(); } }\nprint(Kept.make().tag());\nvar k = Kept.new();\nprint(type(k));\n",
+    "var acc = [];\nfor i in 0..4 { acc.push(\"s${i}\" + \"x\"); }\nprint(acc);\nvar m = {\"a\": acc, (1, 2): 3};\nprint(m.get((1, 2)));\n",
+    "var fb = Fiber.new(|a| { var got = Fiber.yield([a]); return [a, got]; });\nprint(fb.call(1));\nprint(fb.call(2));\n",
+    "fn risky(n) { if n > 1 { throw \"too big: ${n}\"; } return n; }\ntry { print(risky(1)); print(risky(2)); } catch e { print(e); } finally { print(\"fin\"); }\n",
+    "print(\"before\");\nnil + 1;\nprint(\"not reached\");\n",
+    "var words = \"a,b,c\".split(\",\");\nprint(words);\nprint(words.iter().filter(|w| w != \"b\").collect());\n",
+]
+
+
+def host_history(rng):
+    """the embedding program's view: sources compiled once and kept (the host holds the compiled function), executed
+    several times, also after reset(); natives defined in existing and in not-yet-existing modules and read back; ordinary
+    snippets in between that use what the host defined"""
+    r = rng
+    steps = []
+    nkeep = r.range(1, 3)
+    srcs = r.sample(KEEP_SOURCES, nkeep)
+    for s_ in srcs:
+        steps.append(("keep", s_))
+    natives = []
+    for k in range(r.range(4, 12)):
+        c = r.below(100)
+        if c < 35:
+            steps.append(("exec", r.below(nkeep)))
+        elif c < 47:
+            steps.append(("reset",))
+        elif c < 62:
+            mod = r.choice(["main", "main", "plug%d" % r.below(3), "good"])
+            name = "hn%d" % k
+            steps.append(("native", mod, name))
+            natives.append((mod, name))
+            steps.append(("snip", "var junk%d = []; for i in 0..12 { junk%d.push([i, \"j${i}\"]); }\nprint(junk%d.len());\n" % (k, k, k)))
+            steps.append(("getg", mod, name))
+        elif c < 74 and natives:
+            mod, name = r.choice(natives)
+            steps.append(("getg", mod, name))
+            if mod == "main":
+                steps.append(("snip", "try { print(%s([1, \"via native\"])); } catch e { print(type(e)); print(e.context); }\n" % name))
+        elif c < 84:
+            steps.append(("snip", "try { import \"%s\" as im%d; print(im%d); } catch e { print(type(e)); print(e.context); }\n" % (r.choice(["good", "plug0", "plug1", "probe_mod"]), k, k)))
+        elif c < 92:
+            steps.append(("getg", "main", r.choice(["counter", "made", "Kept", "acc", "fb", "words", "nothing_here", "print", "Error"])))
+        else:
+            steps.append(("snip", PROBE))
+    steps.append(("exec", r.below(nkeep)))
+    steps.append(("snip", PROBE))
+    return steps, MODS
